@@ -5,6 +5,8 @@ structurally equal positions).  Call-site obligations (every list handed to
 Producer / TaskGenerator is the parser's result or a reduplicate() result)
 are part of the strategy contracts, see contracts/strategies.py.
 """
+import z3
+
 from pyvc.api import Contract, NativeCheck
 
 PROPERTY = 'C13'
@@ -12,7 +14,7 @@ PROPERTY = 'C13'
 
 def contracts(tier):
     from . import strategies
-    return strategies.all_contracts(tier)
+    return strategies.all_contracts(tier) + reduplicate_contracts(tier)
 
 
 def native_checks(tier):
@@ -29,3 +31,169 @@ def native_checks(tier):
                     bound='ids of every input handed to Producer / '
                     'TaskGenerator in scripted runs'),
     ]
+
+
+# ---------------------------------------------------------------------------
+# nodes.reduplicate, tier S: DAGs of concrete shape, symbolic ids / texts
+
+import itertools  # noqa: E402
+
+from pyvc import sym  # noqa: E402
+from pyvc.api import outcome  # noqa: E402
+from pyvc.interp import ObjVal  # noqa: E402
+from pyvc.sym import SStr, mk_bool  # noqa: E402
+
+
+def _positions(shape, path=()):
+    yield path, shape
+    if shape is not None:
+        for i, c in enumerate(shape):
+            yield from _positions(c, path + (i, ))
+
+
+def dag_configs(maxn):
+    """(forest shapes, tuple of positions that hold one object)"""
+    from . import c11
+    out = []
+    for sh in c11.forest_shapes(maxn, 3):
+        pos = [((t, ) + p, s) for t, tree in enumerate(sh)
+               for p, s in _positions(tree)]
+        out.append((sh, ()))
+        for (p1, s1), (p2, s2) in itertools.combinations(pos, 2):
+            if repr(s1) != repr(s2):
+                continue
+            if p1 == p2[:len(p1)] or p2 == p1[:len(p2)]:
+                continue  # nested positions cannot hold one object
+            out.append((sh, (p1, p2)))
+    return out
+
+
+def make_run_redup(shapes_, share):
+    from . import c12, nodemodel as nm
+
+    def run(eng, p):
+        nodes_mod = eng.load_module('ddsmt.nodes')
+        cls = nm.node_class(eng)
+        objs = []  # distinct objects
+        shared = {}
+
+        def build(shape, path):
+            if share and path == share[1]:
+                return shared['obj']
+            o = ObjVal(cls)
+            o.tag = {'name': 'p' + '_'.join(map(str, path))}
+            idv = p.fresh_int('id_' + o.tag['name'])
+            p.assume(idv >= nm.LAZY_ID_BASE)
+            o.attrs['id'] = sym.SNum(idv)
+            if shape is None:
+                t = p.fresh_str('txt_' + o.tag['name'])
+                o.attrs['data'] = sym.mk_str([('v', t)])
+                o.attrs['hash'] = sym.SNum(eng.STRHASH(t))
+            else:
+                kids = [build(s, path + (i, )) for i, s in enumerate(shape)]
+                o.attrs['data'] = tuple(kids)
+                o.attrs['hash'] = sym.SNum(0)
+            objs.append(o)
+            if share and path == share[0]:
+                shared['obj'] = o
+            return o
+
+        forest = [build(s, (i, )) for i, s in enumerate(shapes_)]
+        for a, b in itertools.combinations(objs, 2):
+            p.assume(a.attrs['id'].z != b.attrs['id'].z)
+        snapshot = [(o, o.attrs['data'], o.attrs['id']) for o in objs]
+        out = outcome(eng, nodes_mod.g['reduplicate'], [forest])
+        N = 'C13/reduplicate'
+        p.oblige(f'{N}/raises-nothing', out.kind == 'return', info=repr(out))
+        if out.kind != 'return':
+            return
+        res = out.value
+        p.oblige(f'{N}/argument-not-modified',
+                 all(o.attrs['data'] is d and o.attrs['id'] is i
+                     for o, d, i in snapshot) and len(forest) == len(shapes_))
+        # positions of the result
+        rpos = []
+
+        def walk(n, orig):
+            rpos.append((n, orig))
+            d = n.attrs['data']
+            if not isinstance(d, (str, SStr)):
+                od = orig.attrs['data']
+                if isinstance(od, (str, SStr)) or len(od) != len(d):
+                    raise ValueError('shape')
+                for c, oc in zip(d, od):
+                    walk(c, oc)
+
+        ok_shape = isinstance(res, list) and len(res) == len(forest)
+        if ok_shape:
+            try:
+                for n, o in zip(res, forest):
+                    walk(n, o)
+            except (ValueError, AttributeError):
+                ok_shape = False
+        p.oblige(f'{N}/same-shape', ok_shape)
+        if not ok_shape:
+            return
+        same_tokens = True
+        for n, o in rpos:
+            d, od = n.attrs['data'], o.attrs['data']
+            if isinstance(d, (str, SStr)) != isinstance(od, (str, SStr)):
+                same_tokens = False
+            elif isinstance(d, (str, SStr)) and d is not od and \
+                    not eng.truth(d == od):
+                same_tokens = False
+        p.oblige(f'{N}/same-tokens', same_tokens,
+                 info={'signature': 'reduplicate changed a token'})
+        distinct = all(a is not b for (a, _), (b, _) in
+                       itertools.combinations(rpos, 2))
+        p.oblige(f'{N}/positions-hold-pairwise-distinct-nodes', distinct,
+                 info={'shapes': repr(shapes_), 'shared': repr(share),
+                       'signature': 'one node (one id) at two positions '
+                       'after reduplicate'})
+        if distinct:
+            idz = [sym._znum(n.attrs['id']) for n, _ in rpos]
+            p.oblige(f'{N}/ids-pairwise-distinct',
+                     z3.And(*[a != b for a, b in
+                              itertools.combinations(idz, 2)])
+                     if len(idz) > 1 else True)
+        # nodes that were unique (and all of whose descendants were) stay
+        shared_objs = {id(shared['obj'])} if share else set()
+
+        def has_shared(o):
+            if id(o) in shared_objs:
+                return True
+            d = o.attrs['data']
+            return (not isinstance(d, (str, SStr))) and any(
+                has_shared(c) for c in d)
+
+        p.oblige(f'{N}/unique-nodes-keep-their-identity',
+                 all(n is o for n, o in rpos if not has_shared(o)),
+                 info={'signature': 'a node that was already unique was '
+                       're-created'})
+
+    return run
+
+
+def reduplicate_contracts(tier):
+    import z3 as _z3  # noqa
+    from . import c12
+    maxn = 4 if tier == 'thorough' else 3
+    configs = dag_configs(maxn)
+    nchunks = 8
+    cs = []
+    for c in range(nchunks):
+        chunk = configs[c::nchunks]
+        if not chunk:
+            continue
+
+        def run(eng, p, chunk=chunk):
+            k = p.choose(len(chunk), 'config')
+            make_run_redup(*chunk[k])(eng, p)
+
+        cs.append(Contract(
+            f'C13/reduplicate[configs {c}]', ['ddsmt.nodes.reduplicate'],
+            run, setup=c12.setup, tier='S', max_paths=200000,
+            bound=f'forests of <= 3 trees with <= {maxn} nodes; any pair of '
+            'non-nested positions of equal shape holding one object; ids and '
+            'leaf texts symbolic'))
+    return cs
